@@ -277,7 +277,7 @@ def gen_params(rng):
 
 def plan(tier, seed):
     q = tier == "quick"
-    return [{"kind": "pairs", "sub": i, "cases": 45 if q else 500, "budget_s": 110 if q else 1500} for i in range(16 if q else 32)]
+    return [{"kind": "pairs", "sub": i, "cases": 45 if q else 1500, "budget_s": 110 if q else 600} for i in range(16 if q else 32)]
 
 
 def run_shard(spec, R):
